@@ -400,6 +400,10 @@ from ..names_check import names_clause  # noqa: E402
 if names_clause("C18") is not None:
     CLAUSES.append(names_clause("C18"))
 
+from ..envcheck import env_clauses  # noqa: E402
+
+CLAUSES.extend(env_clauses("C18", ("tlv",), n_quick=2, n_thorough=30))
+
 PROPERTY = Property(
     id="C18",
     level="exploration",
